@@ -2,6 +2,7 @@ package gelf
 
 import (
 	"context"
+	"math"
 	"strings"
 	"time"
 
@@ -411,7 +412,8 @@ func (p *Plugin) makeTimestampField(root *insaneJSON.Root, timestampField string
 	}
 
 	// is event in the past? earlier than "Sunday, September 9, 2001 1:46:40 AM"
-	if ts < 1000000000 {
+	// a number that overflows float64 (1e999) is +Inf, which is not a JSON number
+	if ts < 1000000000 || math.IsInf(ts, 0) || math.IsNaN(ts) {
 		ts = now
 	}
 
